@@ -128,3 +128,11 @@ Theorem C19_ending_connection_returns_what_it_held :
     get_slot s i = Some w ->
     wstep c s (WDrop i) = WOk s' -> in_use s' + conn_use (Some w) = in_use s.
 Proof. exact drop_returns_its_buffers. Qed.
+
+(* A buffer stays with its holder until the holder is done with it: the connection loop gives the buffers of a write
+   batch back to the pool only after the vectored write of that batch has been awaited (read off the CURRENT source by
+   translator/headroom.py) — released earlier, another connection could acquire and overwrite the very bytes a pending
+   write still reads. *)
+From NW Require Import Gen.Headroom.
+Theorem C19_source_batch_released_after_the_write : NW.Gen.Headroom.batch_released_after_write = true.
+Proof. reflexivity. Qed.
